@@ -17,7 +17,7 @@ func FuzzSplit(f *testing.F) {
 		if len(data) > 64 {
 			data = data[:64]
 		}
-		vk.FuzzCheck(t, "C16", "rand", SplitCase{In: toInts(string(data)), Frag: []int{int(uint(len(data))%5) + 1, 0, 2}}, runSplit)
+		vk.FuzzCheck(t, "C16", "rand", SplitCase{In: toInts(string(data)), Frag: []int{int(uint(len(data))%5) + 1, 0, 2}, Src: len(data) % 7}, runSplit)
 	})
 }
 
